@@ -299,6 +299,29 @@ func runBytes(c *mon.Ctx, batch, batches int) {
 		s := []byte(seeds[r.Intn(len(seeds))])
 		visit(jsongen.Mutate(r, s, []byte(seeds[r.Intn(len(seeds))])), "senmutant", false)
 	}
+	// SEN feature sequences: every sequence of up to five tokens over the features whose handling shares
+	// parser state (string, concatenation, both comment forms, number, bare token, containers, key), bare
+	// and inside an array
+	toks := []string{`"a"`, `+`, "// c\n", `/* c */`, `1`, `[`, `]`, `x`, `{k:`, `}`}
+	seqN := 0
+	var seq func(prefix string, n int)
+	seq = func(prefix string, n int) {
+		if n > 0 {
+			seqN++
+			if c2.Mine(seqN) {
+				c.Cover("sen:feature-sequences")
+				visit([]byte(prefix), "senseq", false)
+				visit([]byte("["+prefix+"]"), "senseq", false)
+			}
+		}
+		if n == c.Pick(4, 5) {
+			return
+		}
+		for _, t := range toks {
+			seq(prefix+t+" ", n+1)
+		}
+	}
+	seq("", 0)
 	// the optional mongo token functions (Parser.AddMongoFuncs) and a user function: every function x every
 	// kind and number of arguments, alone, in containers and nested
 	k := 0
